@@ -229,8 +229,17 @@ def run_case(c):
         tomos = [int(t) for t in rng.permutation(tomos)] if rng.random() < 0.5 else tomos
         ctf_fmt = {"gctf": os.path.join(tmp, "ts_$xxx_ctf.star"), "ctffind4": os.path.join(tmp, "ts_$xxx_ctf.txt"), None: None}[c["ctf"]]
         out = os.path.join(tmp, "wl.star")
-        df, e = call(wedgeutils.create_wedge_list_sg_batch, np.array(tomos), 1.35, os.path.join(tmp, "ts_$xxx.tlt"), tomo_dim=dims, z_shift=zs,
-                     ctf_file_format=ctf_fmt, ctf_file_type=(c["ctf"] or "gctf"), dose_file_format=os.path.join(tmp, "ts_$xxx_dose.txt"), output_file=out)
+        kw = {"tomo_dim": dims, "z_shift": zs}
+        if c["seed"] % 3 == 0:
+            # the per-tomogram FILE forms of the same inputs: one dimensions file and one z-shift file per tomogram, named by a $xxxx pattern
+            for t in tomos:
+                if not isinstance(dims, pd.DataFrame) or "tomo_id" not in dims.columns:
+                    per[t]["dim"] = [int(v) for v in np.asarray(dims, dtype=float).ravel()[:3]]
+                open(os.path.join(tmp, f"dim_{t:04d}.txt"), "w").write(" ".join(str(v) for v in per[t]["dim"]) + "\n")
+                open(os.path.join(tmp, f"zs_{t:04d}.txt"), "w").write(f"{per[t]['zs']}\n")
+            kw = {"tomo_dim_file_format": os.path.join(tmp, "dim_$xxxx.txt"), "z_shift_file_format": os.path.join(tmp, "zs_$xxxx.txt")}
+        df, e = call(wedgeutils.create_wedge_list_sg_batch, np.array(tomos), 1.35, os.path.join(tmp, "ts_$xxx.tlt"),
+                     ctf_file_format=ctf_fmt, ctf_file_type=(c["ctf"] or "gctf"), dose_file_format=os.path.join(tmp, "ts_$xxx_dose.txt"), output_file=out, **kw)
         if e is not None:
             return {"raised": f"create_wedge_list_sg_batch {type(e).__name__}: {e}", "ctf": c["ctf"]}
         exp_rows = sum(len(per[t]["tilts"]) for t in tomos)
